@@ -11,7 +11,10 @@ SysTable ==
     \* DEHB: the rung systems of the later brackets are suffixes of the first bracket's
     de31   |-> << << <<3, 1>>, <<1, 3>> >>, << <<1, 3>> >> >>,
     de321  |-> << << <<3, 1>>, <<2, 2>>, <<1, 4>> >>, << <<2, 2>>, <<1, 4>> >>, << <<1, 4>> >> >>,
-    de31one |-> << << <<3, 1>>, <<1, 3>> >> >> ]
+    de31one |-> << << <<3, 1>>, <<1, 3>> >> >>,
+    \* fewer brackets per iteration than rung levels (num_brackets_per_iteration = 1, 2 of 3)
+    de321one |-> << << <<3, 1>>, <<2, 2>>, <<1, 4>> >> >>,
+    de321two |-> << << <<3, 1>>, <<2, 2>>, <<1, 4>> >>, << <<2, 2>>, <<1, 4>> >> >> ]
 Conf == [sys |-> SysTable[SysName], min |-> IsMin, mra |-> MRA, vals |-> Vals, faults |-> Faults, de |-> DE, pr |-> PR]
 Init == InitCommon(Conf)
 Spec == Init /\ [][Next]_vars
